@@ -312,6 +312,125 @@ theorem c2nAt_of_ge {s : CellStore} {k c : Nat} (h : s.max ≤ c) : s.c2nAt k c 
   simp only [c2nAt, row, this]
   rfl
 
+
+theorem liveRow_iff {r : List Int} : liveRow r = true ↔ r.getD 0 (-1) ≠ -1 := by
+  unfold liveRow; simp only [bne_iff_ne, ne_eq]
+
+theorem liveRow_false_iff {r : List Int} : liveRow r = false ↔ r.getD 0 (-1) = -1 := by
+  unfold liveRow; simp only [bne_eq_false_iff_eq]
+
+theorem getD_rows_eq_getElem {rows : List (List Int)} {i : Nat} (h : i < rows.length) :
+    rows.getD i [] = rows[i] := by
+  simp [List.getD_eq_getElem?_getD, h]
+
+/-- facts shared by every state whose rows are `s.c2n.set i x` -/
+theorem validCell_set_ne {s t : CellStore} {i : Nat} {x : List Int} (hc : t.c2n = s.c2n.set i x)
+    {c : Int} (h : c.toNat ≠ i ∨ c < 0) : t.validCell c = s.validCell c := by
+  rw [Bool.eq_iff_iff, validCell_iff, validCell_iff]
+  simp only [c2nAt, row, CellStore.max, hc, List.length_set]
+  rcases h with h | h
+  · rw [getD_rows_set_ne h]
+  · constructor <;> (rintro ⟨h0, _⟩; omega)
+
+theorem cellNodes_set_ne {s t : CellStore} {i : Nat} {x : List Int} (hc : t.c2n = s.c2n.set i x)
+    (hp : t.nodePer = s.nodePer) {c : Int} (h : c.toNat ≠ i) : t.cellNodes c = s.cellNodes c := by
+  simp only [cellNodes, row, hc, hp, getD_rows_set_ne h]
+
+theorem cellNodes_set_self {s t : CellStore} {i : Nat} {x : List Int} (hc : t.c2n = s.c2n.set i x)
+    (hi : i < s.c2n.length) {c : Int} (h : c.toNat = i) : t.cellNodes c = x.take t.nodePer := by
+  simp only [cellNodes, row, hc, h, getD_rows_set_self hi]
+
+theorem liveRow_of_nonneg {nodes : List Int} {np : Nat} (hnp : 1 ≤ np) (h : ∀ v ∈ nodes.take np, 0 ≤ v)
+    (hl : np ≤ nodes.length) : liveRow nodes = true := by
+  have h0 : 0 < nodes.length := by omega
+  have hmem : nodes[0] ∈ nodes.take np := by
+    rw [List.mem_take_iff_getElem]
+    exact ⟨0, by rw [Nat.lt_min]; omega, rfl⟩
+  have := h _ hmem
+  rw [liveRow_iff, List.getD_eq_getElem?_getD, List.getElem?_eq_getElem h0]
+  simp only [Option.getD_some]
+  omega
+
+/-- take a free row off the list and store a cell there, given an adjacency that registers it -/
+theorem pop_CellInv {t u : CellStore} (h : CellInv t) (hb : t.blank ≠ -1) {nodes : List Int}
+    (hlen : nodes.length = t.sizePer) (hnn : ∀ v ∈ nodes.take t.nodePer, 0 ≤ v)
+    (hnp : u.nodePer = t.nodePer) (hsp : u.sizePer = t.sizePer)
+    (hc2n : u.c2n = t.c2n.set t.blank.toNat nodes) (hbl : u.blank = t.c2nAt 1 t.blank.toNat)
+    (hn : u.n = t.n + 1)
+    (hadj : ∀ w x, (u.adj.first w).count x =
+      (t.adj.first w).count x + (if x = t.blank then (nodes.take t.nodePer).count w else 0)) :
+    CellInv u ∧ 0 ≤ t.blank ∧ t.blank.toNat < t.max ∧ t.validCell t.blank = false := by
+  obtain ⟨hper, hrows, ⟨l, hc, hnd, hmem⟩, hcount, hnonneg, hadj0⟩ := h
+  obtain ⟨i, l', hbi, rfl, hi, hfree, hc'⟩ := hc.cons_inv hb
+  have hil : i ∉ l' := (List.nodup_cons.1 hnd).1
+  have htn : t.blank.toNat = i := by omega
+  rw [htn] at hc2n hbl
+  have hinvalid : t.validCell t.blank = false := by
+    rw [Bool.eq_false_iff]
+    intro hv
+    obtain ⟨_, _, h3⟩ := validCell_iff.1 hv
+    rw [htn] at h3
+    exact h3 hfree
+  have hlive : liveRow nodes = true := liveRow_of_nonneg hper.1 hnn (by omega)
+  have hvalid' : u.validCell t.blank = true := by
+    rw [validCell_iff]
+    refine ⟨by omega, by rw [htn]; simpa [CellStore.max, hc2n] using hi, ?_⟩
+    simp only [c2nAt, row, htn, hc2n, getD_rows_set_self hi]
+    exact liveRow_iff.1 hlive
+  refine ⟨⟨by rw [hnp, hsp]; exact hper, ?_, ⟨l', ?_, (List.nodup_cons.1 hnd).2, ?_⟩, ?_, ?_, ?_⟩,
+    by omega, by rw [htn]; exact hi, hinvalid⟩
+  · intro r hr
+    rw [hc2n] at hr
+    rw [hsp]
+    rcases List.mem_or_eq_of_mem_set hr with hr | hr
+    · exact hrows r hr
+    · rw [hr]; exact hlen
+  · rw [hc2n, hbl]
+    simp only [c2nAt, row]
+    exact hc'.set_of_not_mem hil
+  · intro j hj
+    simp only [CellStore.max, hc2n, List.length_set] at hj
+    simp only [c2nAt, row, hc2n]
+    by_cases hji : j = i
+    · subst hji
+      rw [getD_rows_set_self hi]
+      have := liveRow_iff.1 hlive
+      constructor
+      · intro h; exact absurd h hil
+      · intro h; exact absurd h this
+    · rw [getD_rows_set_ne hji]
+      have := hmem j hj
+      simp only [List.mem_cons, hji, false_or, c2nAt, row] at this
+      exact this
+  · rw [hn, hc2n, List.countP_set hi, hcount]
+    have h1 : liveRow t.c2n[i] = false := by
+      rw [liveRow_false_iff, ← getD_rows_eq_getElem hi]; exact hfree
+    simp only [h1, hlive, if_true, Bool.false_eq_true, if_false]
+    omega
+  · intro c hv v hvm
+    by_cases hci : c.toNat = i
+    · rw [cellNodes_set_self hc2n hi hci, hnp] at hvm
+      exact hnn v hvm
+    · rw [validCell_set_ne hc2n (Or.inl hci)] at hv
+      rw [cellNodes_set_ne hc2n hnp hci] at hvm
+      exact hnonneg c hv v hvm
+  · intro v c
+    rw [hadj v c, hadj0 v c]
+    by_cases hcb : c = t.blank
+    · subst hcb
+      rw [cellNodes_set_self hc2n hi htn, hnp]
+      simp only [hinvalid, hvalid', Bool.false_eq_true, if_false, if_true, Nat.zero_add]
+    · have hci : c.toNat ≠ i ∨ c < 0 := by omega
+      rw [validCell_set_ne hc2n hci]
+      simp only [hcb, if_false, Nat.add_zero]
+      split
+      · rename_i hv
+        have hci' : c.toNat ≠ i := by
+          obtain ⟨h0, _, _⟩ := validCell_iff.1 hv
+          omega
+        rw [cellNodes_set_ne hc2n hnp hci']
+      · rfl
+
 end CellStore
 
 end Refine.Model.CellStore
